@@ -701,29 +701,58 @@ CLAIMED['C02'] = dict(
 CLAIMED['C04'] = dict(
         technique="Coq proof over a hand-written model of ExcelFormula.needed_addresses (token stream of the emitted "
                   "code, the NAME ( STRING ) scan with the generated ADDR_FUNCS_NAMES, uniqueify: coq/Model/Scan.v) and "
-                  "of the read trace of the compiled code, on top of the C02 emitter model; extracted-model/"
-                  "implementation differential run (needed_addresses and python_code, exact); an oracle on real "
-                  "openpyxl workbooks compiled by ExcelCompiler with the two run-time read paths wrapped",
-        text="Machine-checked (Coq 8.16, 3 theorems in coq/Props/C04.v, closed under the global context). FULL for the "
-             "model, all expressions of any size: C04_cover (for every expression whose references are written - no "
-             "range-union between computed references, nothing outside the emitter model - every address the "
-             "compiled code can read through _C_/_R_ is among the scanned precedents, or is a range computed by "
-             "the intersection operator from scanned precedents only, hence contained in them by C11_intersection), "
-             "C04_scan_complete (the token scan finds every _C_/_R_/_REF_(\"..\") call node anywhere in the emitted "
-             "tree, also inside regions renamed to _REF_: ROW/COLUMN arguments, operands of reference operators), "
-             "C04_addr_names (the scanned names are the generated ADDR_FUNCS_NAMES). NOT PROVED (oracle only): "
-             "C04_edges / C04_influence of the design (dep_graph gets an edge for every declared precedent and for "
-             "every member of a range node; ancestors are a superset of the influencers) - graph construction "
-             "(_process_gen_graph, _make_cells) has no Coq model; the model's trace is the set of _C_/_R_ call "
-             "nodes (Python's strict evaluation), not an instrumented evaluator. CORRESPONDENCE: every quick run "
-             "compares Model/Scan.v needed and Model/Emit.v code with ExcelFormula.needed_addresses / python_code "
-             "on ~13k formula texts rich in references (plain, $, lower case, sheet-qualified, ranges, nested "
-             "intersections, ROW/COLUMN/INDEX/IF/SUM arguments), 0 divergences (~7% outside the emitter model: "
-             "multi-colon, whole-row/column references, arrays). ORACLE on the implementation: 250 PRNG workbooks "
-             "(2 sheets, 20 reference-form templates incl. defined names, multi-colon, union, ROW()/COLUMN(), CSE "
-             "members, chains) - every traced (formula cell, address read) pair is a declared precedent or lies "
-             "inside a declared range with a member -> range -> dependant path in dep_graph, every declared "
-             "precedent has its edge, and perturbing a non-ancestor input never changes a value.",
+                  "of the read trace of the compiled code, on top of the C02 emitter model; Coq proofs over the machine "
+                  "model of ExcelCompiler's graph construction and lazy evaluation (coq/Model/Graph.v, shared with C01) "
+                  "and its copy instrumented with a (reader, read) trace (coq/Model/ReadTrace.v); extracted-model/"
+                  "implementation differential runs (needed_addresses and python_code, exact; read-trace sets per "
+                  "evaluate call on generated DAG workbooks); an oracle on real openpyxl workbooks compiled by "
+                  "ExcelCompiler with the two run-time read paths wrapped",
+        text="Machine-checked (Coq 8.16, 19 theorems in coq/Props/C04.v, all closed under the global context; none is "
+             "partial). CODE HALF, FULL for the emitter model, all expressions of any size: C04_cover (for every "
+             "expression whose references are written - no range-union between computed references, nothing outside "
+             "the emitter model - every address the compiled code can read through _C_/_R_ is among the scanned "
+             "precedents, or is a range computed by the intersection operator from scanned precedents only, hence "
+             "contained in them by C11_intersection), C04_scan_complete (the token scan finds every "
+             "_C_/_R_/_REF_(\"..\") call node anywhere in the emitted tree, also inside regions renamed to _REF_), "
+             "C04_addr_names (the scanned names are the generated ADDR_FUNCS_NAMES). GRAPH HALF, FULL over the "
+             "machine model (every well-formed DAG workbook, every formula meaning, every history): C04_influence "
+             "(two input assignments that agree on the input cells among the ancestors of c - reflexive-transitive "
+             "closure of the declared-precedent relation including member -> range node -> dependant - give c the "
+             "same from-scratch value), C04_influence_env + C04_sem_reads_declared (the same with the reading "
+             "discipline as an explicit hypothesis on a meaning that may look at any cell; Graph.v's typing of sem "
+             "is exactly that discipline; without it the statement is refuted by Proofs/C04Example.v "
+             "peek_influenced), C04_influence_machine (after any admissible history an admissible write to a cell "
+             "that is not an ancestor of c leaves evaluate c unchanged - through C01's coherence theorem, so with "
+             "C01's side conditions sem_nonblank / stored_ok / late_ok), C04_ancestor_anc, C04_edges (after ANY "
+             "history of evaluate/build/set_value naming nodes of the workbook: every declared precedent and every "
+             "range member p of a built node f is built, precedes f, and f is in dep_graph.successors(p); requested "
+             "nodes are built), C04_ancestors_built, C04_trace_erasure / C04_run_traced (the instrumented "
+             "eval/build/evaluate/run return the same state and values as the originals, no hypothesis), "
+             "C04_trace_edges (every (reader, read) pair is an edge read -> reader, the reader is the evaluated node "
+             "or an ancestor), C04_trace_complete (a computed node reads all its precedents, a cached node or input "
+             "reads nothing), C04_trace_determines (a cache that agrees on the evaluated node and on every cell of "
+             "the trace gives the same value and the same trace: the trace contains every cache entry the "
+             "evaluation depends on). COMPOSITION: C04_reads_are_edges (= C04_cover composed with the graph: if the declared "
+             "precedents of each formula cell contain the nodes named by needed(e), every _C_/_R_ read of the "
+             "emitted code is the address of a node with an edge to the cell, or an intersection of such), "
+             "C04_reads_are_graph_edges (+ C04_edges: that node is built and the dep_graph edge exists after any "
+             "history), C04_traced_reads_needed (converse on the machine trace), C04_within_path (cells of a computed "
+             "intersection reach the dependant through a declared range). HYPOTHESES LEFT TO THE TIE, not proved: "
+             "that ExcelCompiler's cell_map/needed_addresses satisfy declared_needed (address text -> node, edges "
+             "for needed addresses: checked by the oracle on every workbook) and that range nodes have their cells "
+             "as members (C11_enumerate + oracle); the machine model covers single-sheet workbooks without unbounded "
+             "ranges, names, CSE arrays (C01's limits) - those forms are judged by the oracle only. CORRESPONDENCE: "
+             "every quick run compares Model/Scan.v needed and Model/Emit.v code with "
+             "ExcelFormula.needed_addresses / python_code on ~13k formula texts rich in references, 0 divergences "
+             "(~7% outside the emitter model: multi-colon, whole-row/column references, arrays), and the model's "
+             "read trace (run_traced) with the (reader, read) pairs of a wrapped ExcelCompiler on 260 generated DAG "
+             "workbooks x 6-12 evaluate/set_value operations (set equality per evaluate call, ~2000 reads; each "
+             "implementation pair is also checked against the generated dependency lists and dep_graph). ORACLE on "
+             "the implementation: 250 PRNG workbooks (2 sheets, 20 reference-form templates incl. defined names, "
+             "multi-colon, union, ROW()/COLUMN(), CSE members, chains) - every traced (formula cell, address read) "
+             "pair is a declared precedent or lies inside a declared range with a member -> range -> dependant "
+             "path in dep_graph, every declared precedent has its edge, and perturbing a non-ancestor input never "
+             "changes a value.",
         design_ref="DESIGN.md 5 C04",
     )
 
